@@ -459,6 +459,12 @@ def run_history(ops, record):
                     return classes, refused, groups
                 model.append([ts, [model_item(x) for x in items]])
                 same("set_group")
+                # the caller goes on using ITS list (appends to it, clears it): the container holds what it was given then
+                arg.append(mk_item_container([("f", 448, ("s", "added-by-the-caller-afterwards"))]))
+                same("set_group/caller-appends-to-its-list")
+                del arg[:]
+                same("set_group/caller-clears-its-list")
+                classes.add("caller-reuses-list")
         elif kind == "set_group_bad":
             t = mk_tag(o[1])
             ts = str(o[1][0])
